@@ -61,14 +61,14 @@ func (node *tagIncludeNode) Execute(ctx *ExecutionContext, writer TemplateWriter
 			}
 			return err2.(*Error)
 		}
-		err2 = includedTpl.ExecuteWriter(includeCtx, writer)
+		err2 = includedTpl.executeWriterNested(includeCtx, writer, ctx.depth+1)
 		if err2 != nil {
 			return node.executionError(ctx, err2)
 		}
 		return nil
 	}
 	// Template is already parsed with static filename
-	err := node.tpl.ExecuteWriter(includeCtx, writer)
+	err := node.tpl.executeWriterNested(includeCtx, writer, ctx.depth+1)
 	if err != nil {
 		return node.executionError(ctx, err)
 	}
@@ -113,7 +113,7 @@ func tagIncludeParser(doc *Parser, start *Token, arguments *Parser) (INodeTag, *
 
 		// Parse the parent
 		includeNode.filename = includedFilename
-		includedTpl, err := doc.template.set.FromFile(includedFilename)
+		includedTpl, err := doc.template.set.fromFile(includedFilename, doc.template.depth+1)
 		if err != nil {
 			// if this is ReadFile error, and "if_exists" token presents we should create and empty node
 			// (only if it is this file that is missing, not one that it includes in turn, and
